@@ -165,3 +165,23 @@ Print Assumptions C05_nest_update_value_preserving.
 Print Assumptions C05_nest_eq_sym.
 Print Assumptions C05_nest_eq_trans.
 Print Assumptions C05_nest_update_premises_hold.
+
+(* a snapshot() that is evaluated but never compared (Model/Undecided.v): update rewrites non-canonical leaves below lists / tuples, dict displays and
+   the keyword arguments of constructor calls at any depth - and the expression keeps its value EXACTLY; without update the text stays verbatim *)
+From V Require Model.Undecided Proofs.UndecidedProofs.
+Theorem C05_undecided_value :
+  forall (ct : Nest.ctab) (upd : bool) (t : Nest.ntree), Nest.eval_r ct (Undecided.undecided upd t) = Nest.eval ct t.
+Proof. exact UndecidedProofs.undecided_value. Qed.
+Theorem C05_undecided_noupdate_identity :
+  forall t : Nest.ntree, NestProofs.verbatim (Undecided.undecided false t) = Some t.
+Proof. exact UndecidedProofs.undecided_noupdate_identity. Qed.
+Theorem C05_undecided_example :
+  Undecided.undecided true UndecidedProofs.ex_t =
+    Nest.QSeq TreeAssign.KList [Nest.QGen (Nest.NAtom 5); Nest.QKeep (Nest.NUnm 0 3); Nest.QKeep (Nest.NDct [(1%Z, Nest.NLeaf 2 false); (1%Z, Nest.NLeaf 3 false)]);
+                Nest.QCall 0 [(None, Nest.QKeep (Nest.NLeaf 7 false)); (Some 1%Z, Nest.QGen (Nest.NAtom 0))]; Nest.QDict [(4%Z, Nest.QGen (Nest.NAtom 1))]]
+  /\ Nest.eval_r UndecidedProofs.ex_ct (Undecided.undecided true UndecidedProofs.ex_t) = Nest.eval UndecidedProofs.ex_ct UndecidedProofs.ex_t
+  /\ NestProofs.unms_r (Undecided.undecided true UndecidedProofs.ex_t) = [0%nat].
+Proof. exact UndecidedProofs.undecided_example. Qed.
+Print Assumptions C05_undecided_value.
+Print Assumptions C05_undecided_noupdate_identity.
+Print Assumptions C05_undecided_example.
